@@ -112,7 +112,7 @@ fn conv_case(cfg: &ConvCfg, tri: usize) -> GradCase {
     let tr = [[true, false], [false, true], [true, true]][tri];
     let leaves = cfg.leaves(tr);
     let n = cfg.image.len();
-    let out_n = numel(&cfg.image[..n - 3]) * cfg.filters[0] * cfg.out_windows();
+    let out_n = numel(&cfg.image[..n - 3]) * cfg.filter_count() * cfg.out_windows();
     GradCase { op: cfg.op(), leaves, seed: Some(distinct_seed(out_n)), uses: 1, passes: 1, same_operand: false, detached_clone: 0, view_of_first: None, swap_operands: false }
 }
 
@@ -407,7 +407,8 @@ pub fn campaigns(ctx: &Ctx) -> Stats {
                 12 => (Ln, vec![leaf(&d, vals(1, n, false), true)]),
                 13 => (Recip, vec![leaf(&d, vals(1, n, true), true)]),
                 14 => (Exp, vec![leaf(&d, args(n), true)]),
-                15 => (Sigmoid, vec![leaf(&d, args(n), true)]),
+                // the logistic function is defined where e^-x overflows: arguments are not clamped
+                15 => (Sigmoid, vec![leaf(&d, wide_vals(z, n, pick_base(z as u8, 40).min(9), j.min(8), true), true)]),
                 16 => (Softmax, vec![leaf(&d, args(n), true)]),
                 17 => (Powf([2.0, 3.0, 4.0, -1.0, -2.0, 1.0][(z >> 44) as usize % 6]), vec![leaf(&d, vals(1, n, true), true)]),
                 18 => (Powf([0.5, 1.5, -0.5, -1.5, 2.5, 0.25][(z >> 44) as usize % 6]), vec![leaf(&d, vals(1, n, false), true)]),
